@@ -23,6 +23,7 @@ SUMMARY = {
  "C12": "Call-site rules on `Recv`/`Send`: `0 ≤ ctxbound(ctx) ≤ max(timeout,0)` at every transport call of `Run`, `tryRead`, `writeUnencrypted`, `readUnencrypted`.",
  "C13": "`InRange`, `CheckGP` (table of residues), `checkPrime`, `CheckDH`, `CheckDHParams` accept exactly the inputs of the specification (biconditional postconditions over `*big.Int` values, 2^1984 margin).",
  "C14": "`RSAPad`: call-site rules at `rsaEncrypt` and `EncryptBlocks` pin the layout handed to RSA (see level text); `reverseBytes` reverses in place (loop invariants incl. an element frame); `DecodeRSAPad`: xor, IGE decryption with zero IV, reversal, and `bytes.Equal(hash, SHA256(temp_key‖data))` must have returned true on the success path.",
+ "C15": "`checkInput` against `crypto.CheckDH`'s contract; `SRP.Hash` / `SRP.NewHash`: `err == nil ⇒ bitlen(p) = 2048 ∧ gp(g, p) ∧ isprime(p) ∧ isprime((p−1)/2)` for the received (g, p). `SRP.Hash`: 24 call-site rules pin every argument of `hash` (5 calls), `xor32`, `FillBytes`, `computeXV` and `bigExp` (2 calls) to the specification's data flow, with ghosts for u, k, x, v and the hash results; `seq(A) = padbig(powmod(g, a, p))` as a postcondition, `M1` = result of the fifth hash call. Primitives (SHA-256, PBKDF2, padding, modular exponentiation) are uninterpreted; verifier acceptance is an undecided clause.",
  "C16": "Senders: exactly two writes, header (abridged: one byte or 0x7f+3 bytes; intermediate: LE32 length) then the payload bytes; receivers: header parsed, then one `ReadFull` of exactly the announced length into the buffer (padded variant strips len mod 4).",
  "C17": "`readLen`, `readFull`, `readAbridged`, `readIntermediate`, `checkProtocolError`: safety obligations plus `alloclimit = 16 MiB + 8` on arbitrary streams.",
  "C18": "`generateInit`: `err == nil ⇒ ¬reserved(init)`; `generateKeys`: header[0:56] = init ∧ ¬reserved(header), stream key/IV attributes equal header[8:40]/[40:56]; `getDecryptInit` reverses init[8:56]; `createStreams` keys; `Accept` decrypts with the stream keyed from the received bytes 8..56.",
